@@ -161,11 +161,33 @@ func closeOnInterrupt(w *fsnotify.Watcher) {
 }
 
 func (e *Executor) registerWatchedDirs(w *fsnotify.Watcher, calls ...*Call) error {
+	// Tasks may call each other in a cycle (at run time `status` or `sources`
+	// end it): a task is visited once per set of variables it is called with,
+	// and, as in RunTask, no more than MaximumTaskCall times in all (a cycle
+	// that changes a variable on every round).
+	visited := make(map[string]bool)
+	visits := make(map[string]int)
 	var registerTaskDirs func(*Call) error
 	registerTaskDirs = func(c *Call) error {
 		task, err := e.CompiledTask(c)
 		if err != nil {
 			return err
+		}
+
+		varsHash, err := c.Vars.Hash()
+		if err != nil {
+			return err
+		}
+		key := fmt.Sprintf("%s\x00%d", task.Task, varsHash)
+		if visited[key] {
+			return nil
+		}
+		visited[key] = true
+		if visits[task.Task]++; visits[task.Task] >= MaximumTaskCall {
+			return &errors.TaskCalledTooManyTimesError{
+				TaskName:        task.Task,
+				MaximumTaskCall: MaximumTaskCall,
+			}
 		}
 
 		for _, d := range task.Deps {
